@@ -109,10 +109,12 @@ private:
       return false;
     }
 
-    if (global_epoch.load(std::memory_order_relaxed) == curr_epoch) {
-      // (4) - this acquire-fence synchronizes-with the release-store (3)
-      XENIUM_THREAD_FENCE(std::memory_order_acquire);
+    // (4) - this acquire-fence synchronizes-with the release-store (3)
+    // The fence is required even if some other thread has already updated the epoch, because the caller
+    // reclaims the nodes of the new epoch in any case.
+    XENIUM_THREAD_FENCE(std::memory_order_acquire);
 
+    if (global_epoch.load(std::memory_order_relaxed) == curr_epoch) {
       // (5) - this acq_rel-CAS synchronizes-with the acquire-load (2)
       //       and the acq_rel-CAS (1)
       bool success = global_epoch.compare_exchange_strong(
